@@ -724,6 +724,26 @@ pub fn c19(case: &Case, seed: u64) -> Verdict {
         Ok(p) if p != base => return Fails(format!("building the same registration sequence twice gave different plans: {} vs {}", show(&base), show(&p))),
         _ => {}
     }
+    // (1b) same sequence built where rayon reports another number of workers (on a worker of a small pool, as in a process
+    // started with another RAYON_NUM_THREADS): "in every process and feature configuration"
+    {
+        use std::sync::OnceLock;
+        static SMALL: OnceLock<Vec<rayon::ThreadPool>> = OnceLock::new();
+        let small = SMALL.get_or_init(|| [1usize, 3].iter().map(|n| rayon::ThreadPoolBuilder::new().num_threads(*n).build().unwrap()).collect());
+        for sp in small.iter() {
+            match sp.install(|| plans(case)) {
+                Ok(p) if p != base => {
+                    return Fails(format!(
+                        "building the same registration sequence where rayon has {} worker(s) (rayon::current_num_threads) changed the plan: {} vs {}",
+                        sp.current_num_threads(),
+                        show(&base),
+                        show(&p)
+                    ))
+                }
+                _ => {}
+            }
+        }
+    }
     // (2) renaming of systems
     let ren = |n: &str| if n.is_empty() { String::new() } else { format!("zz/{} x", n.chars().rev().collect::<String>()) };
     let c2 = Case {
